@@ -11,8 +11,12 @@ Model: the converter after JSON decoding (rows → emitted items, skipped count,
 * `C18_sort_keeps_everything` — sorting only permutes the items;
 * `C18_other_rows_counted` — split, non-CGT and unknown rows each raise the skipped count (unknown rows
   also raise a warning and leave a comment).
-Known finding D16 (recorded): a withholding row without a same-date dividend, and a dividend row with
-a blank amount, leave no trace (`C18_orphan_withholding_vanishes` is the model's witness).
+* `C18_withholding_is_attached_or_reported`, `C18_blank_dividend_is_reported` — a withholding row that names
+  a symbol is either carried by a dividend of its date and symbol (and then adds nothing of its own) or
+  leaves a comment, a warning and a skipped count; a dividend row without an amount likewise (the repair
+  of D16 for those rows).
+Known finding D16, what is left of it: a withholding row *without a symbol* leaves no trace
+(`C18_symbolless_withholding_vanishes`); an existing test of the repository pins that behaviour.
 Checked on the real converter for generated exports: line multiset, dividend/tax totals, skipped
 count, valid DSL in chronological order whatever the free text contains, row-order independence and
 date-disjoint chunking through the real report.
@@ -87,10 +91,26 @@ theorem C18_other_rows_counted (all : List Row) (s : St) :
     ∀ d sym, (step all s (.split d sym)).skipped = s.skipped + 1 ∧ (step all s (.split d sym)).items = s.items ++ [.comment] :=
   ⟨rfl, rfl, rfl, rfl, fun _ _ => ⟨rfl, rfl⟩⟩
 
-/-- D16: a withholding row with no dividend on its date changes nothing at all -/
-theorem C18_orphan_withholding_vanishes (all : List Row) (s : St) (d : Int) (sym : Option String) (a : Option Rat) :
-    (step all s (.nra d sym a)).items = s.items ∧ (step all s (.nra d sym a)).skipped = s.skipped ∧
-    (step all s (.nra d sym a)).warnings = s.warnings := ⟨rfl, rfl, rfl⟩
+/-- a withholding row that names a symbol: carried by a dividend of its date and symbol, or reported -/
+theorem C18_withholding_is_attached_or_reported (all : List Row) (s : St) (d : Int) (sym : String) (a : Option Rat) :
+    (a.isSome ∧ hasDividend all d sym = true → step all s (.nra d (some sym) a) = s) ∧
+    (¬ (a.isSome ∧ hasDividend all d sym = true) →
+      (step all s (.nra d (some sym) a)).items = s.items ++ [.comment] ∧
+      (step all s (.nra d (some sym) a)).skipped = s.skipped + 1 ∧
+      (step all s (.nra d (some sym) a)).warnings = s.warnings + 1) := by
+  constructor
+  · intro h; simp [step, h]
+  · intro h; simp [step, h]
+
+/-- a dividend row without an amount is reported, not dropped -/
+theorem C18_blank_dividend_is_reported (all : List Row) (s : St) (d : Int) (sym : String) :
+    (step all s (.dividend d sym none)).items = s.items ++ [.comment] ∧
+    (step all s (.dividend d sym none)).skipped = s.skipped + 1 ∧
+    (step all s (.dividend d sym none)).warnings = s.warnings + 1 := ⟨rfl, rfl, rfl⟩
+
+/-- D16, what is left: a withholding row without a symbol changes nothing at all -/
+theorem C18_symbolless_withholding_vanishes (all : List Row) (s : St) (d : Int) (a : Option Rat) :
+    step all s (.nra d none a) = s := rfl
 
 example : applyCancels [(5, "A", 1, 2)] ([.sell 5 "A" 1 2 0, .sell 5 "A" 1 2 0, .buy 3 "A" 1 1 0], 0)
     = ([.sell 5 "A" 1 2 0, .buy 3 "A" 1 1 0], 0) := by decide +kernel
